@@ -45,13 +45,35 @@ def run(ctx):
     check_cache(ctx)
 
 
+def containing_search(fi, request, seq='self.cliques'):
+    """the clique K (variable name) selected as "first element of seq whose attribute set contains the request";
+    recognises the loop form and the next(generator) form; -> (K name, node) or None"""
+    from ..normalise import Defs, expand
+    from .C14 import is_subset_test
+    defs = Defs(fi.body)
+    for n in ast.walk(fi.node):
+        if isinstance(n, ast.For) and isinstance(n.target, ast.Name) and U(n.iter) == seq:
+            for t in ast.walk(n):
+                if isinstance(t, ast.If) and is_subset_test(expand(t.test, defs, keep=(request, n.target.id)), request, n.target.id):
+                    return n.target.id, t, 'loop'
+        if isinstance(n, ast.Assign) and len(n.targets) == 1 and isinstance(n.targets[0], ast.Name) and isinstance(n.value, ast.Call) \
+                and U(n.value.func) == 'next' and n.value.args and isinstance(n.value.args[0], ast.GeneratorExp):
+            g = n.value.args[0].generators[0]
+            if U(g.iter) == seq and isinstance(g.target, ast.Name) and len(g.ifs) == 1 and U(n.value.args[0].elt) == g.target.id and \
+                    is_subset_test(expand(g.ifs[0], defs, keep=(request, g.target.id)), request, g.target.id):
+                return n.targets[0].id, n, 'next'
+    return None
+
+
 def check_project(ctx, fi):
+    from ..normalise import Defs, expand
     attrs = fi.params[1]
+    defs = Defs(fi.body)
     rets = [r for r in walk_shallow(fi.node) if isinstance(r, ast.Return)]
     if len(rets) < 2:
         raise AnalysisError('GraphicalModel.project: expected a cached and an uncached return')
     for r in rets:
-        v = r.value
+        v = expand(r.value, defs, keep=(attrs,))
         ok = isinstance(v, ast.Call) and isinstance(v.func, ast.Attribute) and v.func.attr == 'project' and len(v.args) == 1 \
             and U(v.args[0]) == attrs
         ctx.ob('requested-order', fi, r, ok, 'the answer must be ordered by the requested tuple: `<factor>.project(%s)`; returns `%s`' % (attrs, U(v)[:70]))
@@ -64,43 +86,43 @@ def check_project(ctx, fi):
     ve = [c for c in calls_in(fi.node) if U(c.func) == 'variable_elimination_logspace']
     if len(ve) != 1:
         raise AnalysisError('GraphicalModel.project: variable elimination call not found')
-    defs = {s.targets[0].id: s.value for s in walk_shallow(fi.node) if isinstance(s, ast.Assign) and isinstance(s.targets[0], ast.Name)}
     c = ve[0]
-    pots, order, total = [defs.get(U(a), a) if isinstance(a, ast.Name) else a for a in c.args]
-    elim = defs.get('elim')
+    pots, order, total = [expand(a, defs, keep=(attrs,)) for a in c.args]
     ok = U(pots) in ('list(self.potentials.values())', '[self.potentials[cl] for cl in self.cliques]') and U(total) == 'self.total' \
         and isinstance(order, ast.Call) and U(order.func) == 'greedy_order' and len(order.args) == 3 \
-        and U(defs.get(U(order.args[2]), order.args[2])) == 'self.domain.invert(%s)' % attrs
+        and U(order.args[2]) == 'self.domain.invert(%s)' % attrs
     ctx.ob('ve-equations', fi, c, ok, 'out-of-clique answers eliminate exactly domain.invert(%s) from the model\'s own potentials, scaled to self.total' % attrs)
-    # cached path: only a clique that contains the request may answer
-    loops = [s for s in walk_shallow(fi.node) if isinstance(s, ast.For)]
+    # cached path: only a clique that contains the request may answer, and it answers from its own cached marginal
+    found = containing_search(fi, attrs)
     ok = False
-    for l in loops:
-        ifs = [x for x in l.body if isinstance(x, ast.If)]
-        if ifs and U(ifs[0].test).replace(' ', '') == 'set(%s)<=set(%s)' % (attrs, U(l.target)):
-            r = [x for x in ifs[0].body if isinstance(x, ast.Return)]
-            ok = bool(r) and U(r[0].value).startswith('self.marginals[%s]' % U(l.target)) and U(l.iter) == 'self.cliques'
-    ctx.ob('requested-order', fi, loops[0] if loops else fi.node, ok, 'a cached clique marginal answers only requests it contains, keyed by that clique')
+    where = fi.node
+    if found is not None:
+        K, where, kind = found
+        cached = [r for r in rets if 'self.marginals[' in U(r.value)]
+        ok = bool(cached) and all(U(expand(r.value, defs, keep=(attrs, K))).startswith('self.marginals[%s]' % K) for r in cached)
+    ctx.ob('requested-order', fi, where, ok, 'a cached clique marginal answers only requests it contains, keyed by that clique')
 
 
 def check_ve(ctx, fi):
     pots, elim, total = fi.params
-    loops = [s for s in fi.body if isinstance(s, ast.For)]
-    if len(loops) != 1 or U(loops[0].iter) != elim:
+    loops = [s for s in walk_shallow(fi.node) if isinstance(s, ast.For) and isinstance(s.target, ast.Name) and
+             U(s.iter).split('__')[0] == elim]
+    if len(loops) != 1:
         raise AnalysisError('variable_elimination_logspace: elimination loop not found')
     z = U(loops[0].target)
     body = loops[0].body
-    text = ' ; '.join(U(s) for s in body)
-    sel = any(isinstance(s, ast.Assign) and isinstance(s.value, ast.ListComp) and
-              any(U(i).replace(' ', '') == '%sinpsi[i].domain' % z for g in s.value.generators for i in g.ifs) for s in body)
+    sel = any(isinstance(c, ast.Compare) and len(c.ops) == 1 and isinstance(c.ops[0], ast.In) and U(c.left) == z and
+              U(c.comparators[0]).endswith('.domain') for s in body for c in ast.walk(s))
     ctx.ob('ve-equations', fi, loops[0], sel, 'eliminating `%s` collects exactly the factors whose domain mentions it' % z)
-    red = [s for s in body if isinstance(s, ast.Assign) and isinstance(s.value, ast.Call) and U(s.value.func) == 'reduce']
-    ok = bool(red) and isinstance(red[0].value.args[0], ast.Lambda) and isinstance(red[0].value.args[0].body, ast.BinOp) \
-        and isinstance(red[0].value.args[0].body.op, ast.Add)
+
+    def is_add(f):
+        return (isinstance(f, ast.Lambda) and isinstance(f.body, ast.BinOp) and isinstance(f.body.op, ast.Add)) or U(f) == 'operator.add'
+    red = [c for s in body for c in ast.walk(s) if isinstance(c, ast.Call) and U(c.func) in ('reduce', 'functools.reduce') and c.args]
+    sums = [c for s in body for c in ast.walk(s) if isinstance(c, ast.Call) and U(c.func) == 'sum']
+    ok = (bool(red) and all(is_add(c.args[0]) for c in red)) or (not red and bool(sums))
     ctx.ob('ve-equations', fi, red[0] if red else loops[0], ok, 'log-space factors are combined by addition')
-    lse = [s for s in body if isinstance(s, ast.Assign) and isinstance(s.value, ast.Call) and isinstance(s.value.func, ast.Attribute)
-           and s.value.func.attr == 'logsumexp']
-    ok = bool(lse) and U(lse[0].value.args[0]).replace(' ', '') in ('[%s]' % z, '(%s,)' % z)
+    lse = [c for s in body for c in ast.walk(s) if isinstance(c, ast.Call) and isinstance(c.func, ast.Attribute) and c.func.attr == 'logsumexp']
+    ok = len(lse) == 1 and lse[0].args and U(lse[0].args[0]).replace(' ', '') in ('[%s]' % z, '(%s,)' % z)
     ctx.ob('ve-equations', fi, lse[0] if lse else loops[0], ok, 'the eliminated variable `%s` (and only it) is marginalised by logsumexp' % z)
 
 
@@ -159,10 +181,18 @@ def check_krondot(ctx, fi):
 
 def check_cache(ctx):
     n = 0
-    for name, fi in ctx.repo.nmethods(GM, 'GraphicalModel').items():
+    from ..normalise import normalised
+    for name, fi0 in ctx.repo.methods(GM, 'GraphicalModel').items():
+        fi = normalised(ctx.repo, fi0)
         for s in walk_shallow(fi.node):
             if isinstance(s, ast.Assign) and any(U(t) == 'self.marginals' for t in s.targets):
                 n += 1
-                ctx.ob('cache-rule', fi, s, U(s.value) == 'self.belief_propagation(self.potentials)',
-                       'the marginal cache that project() short-cuts through may only hold belief_propagation(self.potentials); stores `%s`' % U(s.value))
+                ok = U(s.value) == 'self.belief_propagation(self.potentials)'
+                if not ok:
+                    # or: stored together with the parameters refitted from the very same marginals (a matched pair)
+                    ok = any(isinstance(t, ast.Assign) and any(U(x) == 'self.potentials' for x in t.targets) and
+                             U(t.value) == 'self.mle(%s)' % U(s.value) for t in fi.body)
+                ctx.ob('cache-rule', fi, s, ok,
+                       'the marginal cache that project() short-cuts through may only hold belief_propagation(self.potentials) - or marginals '
+                       'stored together with self.potentials = self.mle(<the same marginals>); stores `%s`' % U(s.value))
     ctx.floor('stores to the marginal cache inside GraphicalModel', n, 1)
